@@ -102,3 +102,43 @@ Proof.
   exists 3%nat, [[v 100; None; None]], [[v 1; None; v 99]].
   repeat split; try (repeat constructor). vm_compute. discriminate.
 Qed.
+
+(* Third pass.  Accumulating the partial sums of the counts in the count
+   variable's own type (np.cumsum with the dtype of an int8 count variable)
+   wraps at 127: counts 60, 50, 0, 40 give the sums 60, 110, 110, -106 and the
+   last feature is all missing. *)
+Theorem C06_partial_sums_in_count_type_refuted :
+  exists t nrows w stored (data : list (option Z)),
+    Forall (fun x => (0 <= x)%Z /\ in_ity t x = true) stored /\
+    Z.of_nat (length data) = fold_right Z.add 0 stored /\
+    contiguous_decode_wrapped None t nrows w stored data <> contiguous_decode_ty None t nrows w stored data /\
+    exists u, contiguous_decode_wrapped None t nrows w stored data = Ok u /\
+              nth 3 u [] = repeat None w.
+Proof.
+  exists I8, 4%nat, 60%nat, [60; 50; 0; 40], (map (fun k => v (Z.of_nat k)) (seq 1 150)).
+  split; [repeat constructor; vm_compute; discriminate|].
+  split; [vm_compute; reflexivity|].
+  split; [vm_compute; discriminate|].
+  eexists. split; vm_compute; reflexivity.
+Qed.
+
+(* An equality that answers True as soon as the compression types and the
+   compressed arrays are equal never looks at the count variable: the same
+   four samples with counts 1, 3 and with counts 3, 1 are different arrays. *)
+Theorem C06_equals_shortcut_refuted :
+  let decode := fun c : list nat * list (option Z) => contiguous_decode None 2 3 (fst c) (snd c) in
+  let u_eqb := fun a b : result (list (list (option Z))) =>
+                 match a, b with
+                 | Ok x, Ok y => list_eqb (list_eqb (option_eqb Z.eqb)) x y
+                 | _, _ => false
+                 end in
+  exists s t : @dstate (list nat * list (option Z)) (result (list (list (option Z)))),
+    data_equals_shortcut decode (fun _ => tt) snd u_eqb (fun _ _ => true)
+                         (list_eqb (option_eqb Z.eqb)) true s t = true /\
+    data_equals decode (fun _ => tt) snd u_eqb (fun _ _ => true)
+                (list_eqb (option_eqb Z.eqb)) true s t = false /\
+    view decode s <> view decode t.
+Proof.
+  exists (Compressed ([1; 3]%nat, [v 1; v 2; v 3; v 4])), (Compressed ([3; 1]%nat, [v 1; v 2; v 3; v 4])).
+  split; [vm_compute; reflexivity|]. split; [vm_compute; reflexivity|]. vm_compute. discriminate.
+Qed.
